@@ -653,6 +653,48 @@ def gen_items(it, g):
     return seq
 
 
+def _literal_set_items(sv):
+    """elements of a set term that denotes a finite set of constants (a python set that went through set operations), sorted; else None.
+    Independent of how the term happens to be built: the constants occurring in it are the only candidates, membership of each
+    is decided by simplification and the equality with the resulting literal is confirmed by the solver."""
+    try:
+        t = sv.t
+        consts, todo, seen = {}, [t], set()
+        while todo:
+            e = todo.pop()
+            if e.get_id() in seen:
+                continue
+            seen.add(e.get_id())
+            if z3.is_string_value(e):
+                consts[("s", e.as_string())] = e
+            elif z3.is_int_value(e):
+                consts[("i", e.as_long())] = e
+            elif z3.is_app(e) and e.num_args() == 0 and not (z3.is_true(e) or z3.is_false(e)):
+                if e.decl().kind() == z3.Z3_OP_UNINTERPRETED:
+                    return None  # a free variable: not a literal
+            todo.extend(e.children())
+        members = []
+        for (kind, val), c in consts.items():
+            if c.sort() != t.sort().domain():
+                continue
+            m = z3.simplify(z3.Select(t, c))
+            if z3.is_true(m):
+                members.append((val, c))
+            elif not z3.is_false(m):
+                return None
+        lit = z3.EmptySet(t.sort().domain())
+        for _, c in members:
+            lit = z3.SetAdd(lit, c)
+        sol = z3.Solver()
+        sol.set("timeout", 2000)
+        sol.add(t != lit)
+        if sol.check() != z3.unsat:
+            return None
+        return sorted((v for v, _ in members), key=repr)
+    except Exception:
+        return None
+
+
 def iter_concrete(it, v):
     """Items of an iterable with a concrete spine (else OutOfSubset)."""
     from .interp import GenResult
@@ -671,6 +713,9 @@ def iter_concrete(it, v):
     if isinstance(v, (SSeq, SSet, MutSet, SStr)):
         if isinstance(v, MutSet) and v.val is None:
             return []
+        lit = _literal_set_items(v.val if isinstance(v, MutSet) else v) if isinstance(v, (MutSet, SSet)) else None
+        if lit is not None:
+            return lit
         raise OutOfSubset("iteration over a symbolic collection needs a loop contract")
     if isinstance(v, SObj):
         m = inspect.getattr_static(v.cls, "__iter__", None)
